@@ -172,6 +172,21 @@ structure Inst where
   /-- `verifySignature(token, pem, alg)` -/
   verifySignature : Str → Pem → Str → Err
 
+/-- `http.SameSite` -/
+inductive SameSite | default | lax | strict | none
+  deriving DecidableEq, Repr
+/-- gorilla `sessions.Options` (the attributes of the cookies a session is saved in) -/
+structure SessOptions where
+  HttpOnly : Bool
+  Secure : Bool
+  SameSite : SameSite
+  MaxAge : Int
+  Path : Str
+  Domain : Str
+/-- session.go `SessionManager`: the field `getSessionOptions` reads -/
+structure SessMgr where
+  forceHTTPS : Bool
+
 /-- settings.go `TemplatedHeader` -/
 structure TemplatedHeader where
   Name : Str
